@@ -123,9 +123,10 @@ func units() []unit {
 	var l []unit
 	both := []bool{false, true}
 	inorder := []bool{false}
-	materials := []string{"fresh"}
+	materials := []string{"fresh", "refreshed", "derived"} // cheap protocols: all three in both tiers
+	cmpMaterials := []string{"fresh"}
 	if th {
-		materials = []string{"fresh", "refreshed", "derived"}
+		cmpMaterials = materials
 	}
 	// FROST and FROST-Taproot
 	maxN := 4
@@ -165,7 +166,7 @@ func units() []unit {
 		cmpMsgs = []string{"32", "20", "1", "31", "33", "64"}
 	}
 	for t := 0; t < 2; t++ {
-		for _, mat := range materials {
+		for _, mat := range cmpMaterials {
 			for _, S := range keymat.Subsets(2, t+1) {
 				for _, v := range variants {
 					l = append(l, unit{"cmp", "short", 2, t, mat, S, v, cmpMsgs, inorder})
@@ -175,7 +176,7 @@ func units() []unit {
 	}
 	if th {
 		for t := 0; t < 3; t++ {
-			for _, mat := range materials {
+			for _, mat := range cmpMaterials {
 				for _, S := range keymat.Subsets(3, t+1) {
 					for _, v := range variants {
 						l = append(l, unit{"cmp", "short", 3, t, mat, S, v, []string{"32", "20"}, inorder})
@@ -321,7 +322,7 @@ func main() {
 	res := vkit.Init("C01")
 	drv.Install()
 	sess.InstallPrimes()
-	res.Rule = "one case = one history keygen(ids,n,t) [refresh | BIP-32 derive] ; sign(S,m) on the real protocol code: protocol/variant {FROST, FROST-Taproot, Doerner, CMP sign, CMP presign then online sign (two sessions), CMP presign-full} x (n,t) with every t in [0,n) x EVERY signer subset S of the shareholders with |S|>t (all sizes, including one-party sessions for t=0) x message-hash kinds {1,20,31,32,33,64 seeded bytes, 32x00, 32xFF} x key material {fresh; thorough: refreshed, derived} x delivery order {in order, per-batch reversed (not CMP)}; distinct = distinct tuple; every case is non-trivial: every signer must finish, all results must be byte-identical, and each result is verified by the reference verifier of its scheme (math/big ECDSA on the full nonce point / plain Schnorr group equation / BIP-340 on the message bytes as given) under the group key reported at key generation (derived material: under the reference BIP-32 child of that key)"
+	res.Rule = "one case = one history keygen(ids,n,t) [refresh | BIP-32 derive] ; sign(S,m) on the real protocol code: protocol/variant {FROST, FROST-Taproot, Doerner, CMP sign, CMP presign then online sign (two sessions), CMP presign-full} x (n,t) with every t in [0,n) x EVERY signer subset S of the shareholders with |S|>t (all sizes, including one-party sessions for t=0) x message-hash kinds {1,20,31,32,33,64 seeded bytes, 32x00, 32xFF} x key material {fresh, refreshed, BIP-32 derived} (CMP: fresh only in the quick tier) x delivery order {in order, per-batch reversed (not CMP)}; distinct = distinct tuple; every case is non-trivial: every signer must finish, all results must be byte-identical, and each result is verified by the reference verifier of its scheme (math/big ECDSA on the full nonce point / plain Schnorr group equation / BIP-340 on the message bytes as given) under the group key reported at key generation (derived material: under the reference BIP-32 child of that key)"
 	res.Assumptions = []string{
 		"delivery orders other than in-order and per-batch reversed are explored by C07",
 		"plain FROST: the group equation z*G = R + c*Y is checked with reference arithmetic; the challenge framing c = H(R,Y,m) is computed with the library's hash as documented (there is no external standard for it)",
